@@ -304,3 +304,19 @@ class Rng:
     def choice(self, xs): return xs[self.below(len(xs))]
     def bytes(self, n): return bytes(self.below(256) for _ in range(n))
     def chance(self, num, den): return self.below(den) < num
+
+
+def run_parallel(exe, lines, jobs=16, timeout=3000, env=None):
+    """split lines round-robin over `jobs` processes; returns outputs in input order, worst rc, stderr tail"""
+    from concurrent.futures import ThreadPoolExecutor
+    if len(lines) < 2 * jobs: return run_lines(exe, lines, timeout, env)
+    chunks = [lines[i::jobs] for i in range(jobs)]
+    with ThreadPoolExecutor(max_workers=jobs) as ex:
+        res = list(ex.map(lambda c: run_lines(exe, c, timeout, env), chunks))
+    out = [None] * len(lines); rc = 0; err = ''
+    for j, (o, r, e) in enumerate(res):
+        if r != 0: rc = r; err = e
+        for k, v in enumerate(o):
+            idx = j + k * jobs
+            if idx < len(out): out[idx] = v
+    return [x if x is not None else '(missing)' for x in out], rc, err
